@@ -58,8 +58,9 @@ Definition chk_search (x l : list Qc) (r : list (obs (list Z))) : bool :=
             xmax, xlen, qlen = 5, 4, 3
         else:
             xmax, xlen, qlen = 6, 5, 4
-        lattice_x = list(range(xmax + 1))
-        lattice_q = [k / 2 for k in range(-1, 2 * xmax + 2)]
+        lo = -2                                   # signed lattice: 0 sits in the middle of arrays (truthiness slips)
+        lattice_x = list(range(lo, lo + xmax + 1))
+        lattice_q = [lo + k / 2 for k in range(-1, 2 * xmax + 2)]
         xs = [list(c) for k in range(1, xlen + 1) for c in itertools.combinations(lattice_x, k)]
         qs = [list(c) for k in range(1, qlen + 1) for c in itertools.combinations_with_replacement(lattice_q, k)]
         if tier == "escalate":
@@ -67,7 +68,7 @@ Definition chk_search (x l : list Qc) (r : list (obs (list Z))) : bool :=
         for x in xs:
             for l in qs:
                 cases.append({"x": x, "lookup": l, "kind": "lattice"})
-        self.exhaustive_space = "all strictly increasing x of <=%d elements over 0..%d x all non-decreasing query lists of <=%d values over the half-integer lattice" % (xlen, xmax, qlen)
+        self.exhaustive_space = "all strictly increasing x of <=%d elements over -2..%d x all non-decreasing query lists of <=%d values over the half-integer lattice" % (xlen, xmax - 2, qlen)
         # random float arrays with queries equal to, +-1ulp from, between, beyond the elements
         nrand = 300 if tier == "quick" else 3000
         for _ in range(nrand):
